@@ -36,11 +36,11 @@ TYPES = {
 ORDER = ['css', 'html', 'js', 'json', 'svg', 'xml']
 # real inputs of at most 8 bytes for the exhaustive chunkings (besides the suite's own short inputs)
 SHORT = {
-    'css': [b'a{b:c}', b'a { b:1}', b'a{}', b'a{b:0px}', b'/**/a{}'],
+    'css': [b'a{b:c}', b'a ,b{}', b'a { b:1}', b'a{}', b'a{b:0px}', b'/**/a{}', b'a,b{}'],
     'html': [b'<a> b', b'<p>a  b', b'a  b', b'<b>x</b>', b'<!---->a'],
     'js': [b'a = 1;', b'a+ +b', b'var a;', b'1', b'a=`b${c}`'[:8], b'if(a)b;'],
-    'json': [b'[1, 2]', b'{"a":1}', b'[ ]', b'1.0', b' "a\\n" '],
-    'svg': [b'<svg/>', b'<g> </g>', b'<a b=""/>'[:8]],
+    'json': [b'[1, 2]', b'[1 ,2', b'{"a":1}', b'[ ]', b'1.0', b' "a\\n" '],
+    'svg': [b'<svg/>', b'<g/> ', b'<g> </g>', b'<a b=""/>'[:8]],
     'xml': [b'<a> </a>', b'<a/>', b'<a>b</a>', b'<a b="c"/>'[:8], b'<!---->a'],
 }
 # inputs on which the plain call returns an error or which stop inside a construct (error paths of every entry point)
@@ -96,20 +96,19 @@ def bench_inputs(ctx):
 
 # ---------------------------------------------------------------- MC + GEN
 MON = ['MonitorQuiet', 'MonitorFinal']
-MUTANTS = [('nowait', ['CloseWaits', 'NoWriteAfterClose'] + MON), ('noerr', ['CloseWaits', 'FaultSurfaces', 'NoSilentTruncation'] + MON),
+MUTANTS = [('nodelcl', ['ContentLengthGone', 'MonitorFinal']), ('nowait', ['CloseWaits', 'NoWriteAfterClose'] + MON), ('noerr', ['CloseWaits', 'FaultSurfaces', 'NoSilentTruncation'] + MON),
            ('noprobe', ['FaultSurfaces', 'NoSilentTruncation']), ('extfirst', ['SelectionRule', 'ChunkingInvariance'] + MON),
            ('eofswallow', ['FaultSurfaces', 'NoSilentTruncation'] + MON)]
 
 
 def model_check_jobs(ctx, tier, mutants):
     """design-level model checking, as a list of (name, thunk) run concurrently with case generation.
-    - Stream_<tier>.cfg: the design as implemented (PatchCL = FALSE), every mode, every invariant but ContentLengthGone,
+    - Stream_<tier>.cfg: the design as implemented (PatchCL = TRUE since commit c60263b), every mode, every invariant,
       NoWriteAfterClose, liveness <>CloseReturned, deadlock; and D => A: the property relation of the trace
       specification (StreamRel) runs as a monitor over the events of every design behaviour and never flags one
       (MonitorQuiet, MonitorFinal) - no clause rejects an interleaving the correct design can produce;
-    - Stream_<tier>_patched.cfg: response mode with the proposed patch: every invariant incl. ContentLengthGone;
-    - Stream_<tier>_clg.cfg: response mode as implemented must VIOLATE ContentLengthGone (the model reproduces the finding);
-    - Stream_mut_*.cfg: deliberately wrong designs must be rejected (no invariant is vacuous)."""
+    - Stream_mut_*.cfg: deliberately wrong designs must be rejected (no invariant is vacuous); nodelcl is the design
+      before c60263b (no Content-Length removal on the first write), which must violate ContentLengthGone."""
     w = max(2, min(6, vlib.JOBS // 2))
 
     def main():
@@ -120,17 +119,6 @@ def model_check_jobs(ctx, tier, mutants):
         if tier == 'thorough':
             info['design_action_coverage'] = action_coverage(r['out'])
         return info
-
-    def patched():
-        r = vlib.tlc(ctx, 'Stream', 'Stream_%s_patched.cfg' % tier, workers=w, timeout=1500, heap='6g')
-        ok(r, 'Stream_%s_patched.cfg' % tier)
-        return dict(patched_design_states=r['distinct'], patched_design_transitions=r['generated'])
-
-    def clg():
-        r = vlib.tlc(ctx, 'Stream', 'Stream_%s_clg.cfg' % tier, workers=2, timeout=1500, heap='4g')
-        if not set(r['invariant_violations']) or not set(r['invariant_violations']) <= {'ContentLengthGone', 'MonitorStrict'}:
-            raise vlib.Infra('as-is design expected to violate ContentLengthGone, got %s\n%s' % (r['invariant_violations'], r['out'][-1500:]))
-        return dict(asis_design_violates='ContentLengthGone (state invariant / the StreamRel clause run as monitor)')
 
     def mut(name, expect):
         def f():
@@ -149,7 +137,7 @@ def model_check_jobs(ctx, tier, mutants):
         m = re.search(r'(\d+) states checked, (\d+) traces generated', r['out'])
         return dict(design_simulated_traces=int(m.group(2)) if m else 0, design_simulated_states=int(m.group(1)) if m else 0)
 
-    jobs = [('main', main), ('patched', patched), ('clg', clg)] + ([('sim', sim)] if tier == 'thorough' else [])
+    jobs = [('main', main)] + ([('sim', sim)] if tier == 'thorough' else [])
     jobs += [('mut_' + n, mut(n, e)) for n, e in mutants]
     return jobs
 
@@ -317,6 +305,10 @@ def resp_fields(t, reg, rnd, ct='K1', ext='K1', exclude_known=True):
         f['uri'] = rnd.choice(['/app', '/static/x.min', '/a.b/c']) + T['ext']
     else:
         f['uri'] = rnd.choice(['/app', '/img/logo.png', '/', '/dir.js/file', '/x.unknownext'])
+    if f['ct'] != '' and rnd.random() < 0.3:
+        # a query string after the path; only together with a Content-Type (known finding C12/query: without one the
+        # code takes the extension of RequestURI including the query - pinned witness in known/C12.ndjson)
+        f['uri'] += rnd.choice(['?v=1', '?a=b&c=d.css', '?'])
     return f
 
 
@@ -352,10 +344,6 @@ def build_from_init(B, init, t, data, rnd, maxout):
         c['cl'] = len(data) if cfg['cl'] == 'stale' else -1
         c['wh'] = cfg['wh']
         c['status'] = rnd.choice([200, 200, 403, 404])
-        if c['mode'] in ('mw', 'mwerr') and c['wh'] == 'no' and c['cl'] >= 0:
-            # known finding C12/stale-length: the construct "middleware, handler sets Content-Length and never calls
-            # WriteHeader" is excluded from generation (pinned witness in known/C12.ndjson keeps it visible)
-            c['wh'] = rnd.choice(['first', 'last'])
     B.add(**c)
 
 
@@ -365,7 +353,7 @@ def make_cases(ctx, inits, cuts, suite, bench, profile):
     B = Builder(ctx, profile)
     maxout = 2
     # (1) every initial state of the model (thorough) / a seeded sample (quick), on real suite inputs
-    chosen = inits if not quick else vlib.sample(inits, 2600, rnd)
+    chosen = inits if not quick else vlib.sample(inits, 1800, rnd)
     # every mode x gate x fault family appears even in the sample: add one state per (mode, failfrom, srcfail, gate)
     if quick:
         seenk = set()
@@ -391,8 +379,8 @@ def make_cases(ctx, inits, cuts, suite, bench, profile):
         for idx, s in enumerate(picked[: (6 if quick else 14)]):
             parts = cuts[len(s)]
             if quick and len(parts) > 330:
-                # quick: the full set for the first input of each type, a seeded sample otherwise
-                parts = parts if idx == 0 and len(parts) <= 1000 else vlib.sample(parts, 120, rnd)
+                # quick: every partition of inputs up to 5 bytes, a seeded sample of the partitions of longer ones
+                parts = vlib.sample(parts, 150 if idx == 0 else 60, rnd)
             elif not quick and idx >= lim_all and len(parts) > 1000:
                 parts = vlib.sample(parts, 800, rnd)
             exh_inputs += 1
@@ -407,10 +395,10 @@ def make_cases(ctx, inits, cuts, suite, bench, profile):
                           **{'in': s})
                     f = resp_fields(t, reg, rnd, rnd.choice(['K1', 'none']), 'K1')
                     B.add(mode=rnd.choice(['response', 'mw', 'mwerr']), reg=reg, chunks=p, tag='cuts:' + t, mt='',
-                          cl=-1, wh=rnd.choice(['no', 'first', 'last']), gate=(pi % 5 == 1), **f, **{'in': s})
+                          cl=rnd.choice([-1, len(s)]), wh=rnd.choice(['no', 'first', 'last']), gate=(pi % 5 == 1), **f, **{'in': s})
     n_exh = len(B.cases) - n_init
     # (3) seeded partitions of longer inputs (suite + benchmark files), every entry point
-    per_type = 110 if quick else 700
+    per_type = 90 if quick else 700
     for t in ORDER:
         pool = suite[t]
         for j in range(per_type):
@@ -428,7 +416,7 @@ def make_cases(ctx, inits, cuts, suite, bench, profile):
                 c.update(resp_fields(t, reg, rnd, ct, ext))
                 c['mt'] = ''
                 c['wh'] = rnd.choice(['no', 'first', 'last'])
-                c['cl'] = len(data) if (c['wh'] != 'no' or mode == 'response') and rnd.random() < 0.7 else -1
+                c['cl'] = len(data) if rnd.random() < 0.7 else -1
                 c['status'] = rnd.choice([200, 404])
             if mode in ('writer', 'response', 'mw', 'mwerr'):
                 c['gate'] = rnd.random() < 0.4
@@ -447,7 +435,7 @@ def make_cases(ctx, inits, cuts, suite, bench, profile):
                 if mode in ('response', 'mw', 'mwerr'):
                     c.update(resp_fields(t, reg, rnd, rnd.choice(['K1', 'none']), 'K1'))
                     c['mt'] = ''
-                    c['wh'] = rnd.choice(['first', 'last'])
+                    c['wh'] = rnd.choice(['no', 'first', 'last'])
                     c['cl'] = len(data)
                 if mode in ('writer', 'mw', 'mwerr', 'response'):
                     c['gate'] = j % 3 == 0
@@ -802,7 +790,7 @@ def run(ctx):
     inits, cuts, rg = gen.result()
     phase(ctx, 'generated')
     # ---- MC (runs concurrently with the real sessions and their validation)
-    futs = [(n, pool.submit(f)) for n, f in model_check_jobs(ctx, 'quick' if quick else 'thorough', MUTANTS[:1] + MUTANTS[3:4] if quick else MUTANTS)]
+    futs = [(n, pool.submit(f)) for n, f in model_check_jobs(ctx, 'quick' if quick else 'thorough', MUTANTS[:2] + MUTANTS[4:5] if quick else MUTANTS)]
     cases, stats = make_cases(ctx, inits, cuts, suite, bench, profile)
     pinned = vlib.known_cases(PID)
     for p in pinned:
@@ -836,9 +824,9 @@ def run(ctx):
     # ---- collect MC
     for n, f in futs:
         info = f.result()
-        if n in ('main', 'patched'):
-            ctx.mc['states'] += info.get('design_states', 0) + info.get('patched_design_states', 0)
-            ctx.mc['transitions'] += info.get('design_transitions', 0) + info.get('patched_design_transitions', 0)
+        if n == 'main':
+            ctx.mc['states'] += info['design_states']
+            ctx.mc['transitions'] += info['design_transitions']
         ctx.coverage.update(info)
     pool.shutdown()
     phase(ctx, 'MC collected')
@@ -874,11 +862,11 @@ def run(ctx):
         distinct_nontrivial=len(nontrivial),
         rule='a case is one session (entry point, registry kind, mediatype spelling, input bytes, chunk sizes, consumer buffer '
              'sizes/pacing, fault points, gate, response headers/WriteHeader use). Sources: every initial state of Stream '
-             '(TLC, %s), all partitions Cuts(n) of short real inputs up to %d bytes (TLC), seeded partitions (incl. empty and '
+             '(TLC, %s), all partitions Cuts(n) of short real inputs up to %d bytes (TLC; quick tier: all partitions up to 5 bytes, seeded sample for 6), seeded partitions (incl. empty and '
              '1-byte chunks) of the test suites\' inputs and benchmark files for all six media types. Non-trivial = the plain '
              'call succeeds, changes the bytes, and the input is split over more than one call (or goes through Bytes/String). '
-             'Excluded from generation (known finding, pinned witness replayed): Middleware/MiddlewareWithError where the '
-             'handler sets Content-Length and never calls WriteHeader. Request URIs carry no query string (path extension = RequestURI extension).'
+             'Excluded from generation (known finding, pinned witness replayed): a request URI with a query string when the '
+             'handler sets no Content-Type (query strings are generated together with a Content-Type).'
              % ('all of them' if not quick else 'seeded sample', max(cuts)),
         samples=samples,
         exhaustive=not quick,
